@@ -385,11 +385,16 @@ THEMES = {
 
 
 @st.composite
-def tuned_programs(draw):
-    """(theme, fragment names, family of transformations, source)"""
-    theme = draw(st.sampled_from(sorted(THEMES)))
+def tuned_programs(draw, rot=0):
+    """(theme, fragment names, family of transformations, source); `rot`
+    rotates the candidate lists (so that Hypothesis's first, 'simplest'
+    example differs between shards)."""
+    def rotate(seq):
+        k = rot % len(seq)
+        return seq[k:] + seq[:k]
+    theme = draw(st.sampled_from(rotate(sorted(THEMES))))
     prefixes, family = THEMES[theme]
-    themed = [n for n, _ in FRAGMENTS if n.startswith(prefixes)]
+    themed = rotate([n for n, _ in FRAGMENTS if n.startswith(prefixes)])
     names = draw(st.lists(st.sampled_from(themed), min_size=2,
                           max_size=min(5, len(themed)), unique=True))
     if draw(st.booleans()):
